@@ -155,6 +155,7 @@ func (m *model) allowed(subj string, act access.Action, objs []ontology.ID) bool
 }
 
 type sys struct {
+	grouped bool
 	nPol    []string
 	closers []io.Closer
 	db      *gorp.DB
@@ -242,6 +243,10 @@ func (s *sys) Ops() []string {
 			ops = append(ops, "unassign "+r+" "+su)
 		}
 	}
+	// filing a subject and a policy under one non-role parent (a group) grants nothing
+	if !s.grouped && len(s.nPol) > 0 {
+		ops = append(ops, "group s2 "+s.nPol[0])
+	}
 	for _, p := range s.nPol {
 		ops = append(ops, "rmpol "+p)
 	}
@@ -296,6 +301,24 @@ func (s *sys) Apply(op string) (string, error) {
 			return "", vk.Violationf("mkpol-error", "creating policy %s failed: %v (model %s)", f[1], err, m.canon())
 		}
 		m.policies[f[1]] = true
+		return "ok", nil
+	case "group":
+		// only the ontology is touched: a group resource becomes the parent of the subject and
+		// of the policy (if it exists); the model is unchanged - access comes from roles only
+		gid := oid("group", "00000000-0000-0000-0000-0000000000aa")
+		ow := s.otg.NewWriter(s.tx)
+		if err := ow.DefineResource(ctx, gid); err != nil {
+			return "", fmt.Errorf("group: %v", err)
+		}
+		if err := ow.DefineRelationship(ctx, gid, ontology.RelationshipTypeParentOf, subjects[f[1]]); err != nil {
+			return "", fmt.Errorf("group: %v", err)
+		}
+		if m.policies[f[2]] {
+			if err := ow.DefineRelationship(ctx, gid, ontology.RelationshipTypeParentOf, policy.OntologyID(policyDefs[f[2]].Key)); err != nil {
+				return "refused:" + short(err), nil
+			}
+		}
+		s.grouped = true
 		return "ok", nil
 	case "rmrole":
 		err := rw.Delete(ctx, roleKeys[f[1]])
@@ -382,7 +405,7 @@ func (s *sys) Canon() string {
 		c += " TX{" + s.txm.canon() + "}"
 	}
 	// digest of the real stores: paths are merged only if the implementation state agrees too
-	return c + " real:" + s.rawDigest(nil) + "|" + s.rawDigest(s.tx)
+	return c + fmt.Sprintf(" grouped:%v", s.grouped) + " real:" + s.rawDigest(nil) + "|" + s.rawDigest(s.tx)
 }
 
 func (s *sys) rawDigest(tx gorp.Tx) string {
